@@ -251,14 +251,22 @@ Compare ==
        /\ pos' = endPos /\ posKnown' = TRUE /\ pstart' = pstart /\ dead' = dead
     /\ NextLine
 
-SkipDead == phase = 0 /\ dead /\ E.op # "new" /\ UNCHANGED <<src, pos, posKnown>> /\ KeepDecoder /\ NextLine
-Unknown == phase = 0 /\ ~dead /\ E.op \notin {"new", "newreader", "append", "cleanup", "decode"} /\ Diag("HARNESS", "unknown-op", "harness", E.op)
+PostOp == phase = 0 /\ ~dead /\ E.op = "post" /\ UNCHANGED <<src, pos, posKnown>> /\ KeepDecoder /\ NextLine     \* validated by TracePost
+(* C17: instances fed the same history must agree bit for bit (digests of every observation) *)
+Replicas ==
+    /\ phase = 0 /\ E.op = "replicas"
+    /\ LET bad == {gi \in 1..Len(E.groups) : \E a \in 1..Len(E.groups[gi]) : E.groups[gi][a] # E.groups[gi][1]} IN
+       IF bad = {} THEN TRUE
+       ELSE Diag("IMPL", "replicas-differ", "replicas-differ", [mode |-> E.mode, group |-> CHOOSE gi \in bad : TRUE, n |-> Len(E.groups)])
+    /\ UNCHANGED <<src, pos, posKnown>> /\ UNCHANGED <<lastPic, refPic, sor, dcoll, pstart>> /\ dead' = FALSE /\ NextLine
+SkipDead == phase = 0 /\ dead /\ E.op # "replicas" /\ E.op # "new" /\ UNCHANGED <<src, pos, posKnown>> /\ KeepDecoder /\ NextLine
+Unknown == phase = 0 /\ ~dead /\ E.op \notin {"new", "newreader", "append", "cleanup", "decode", "post", "replicas"} /\ Diag("HARNESS", "unknown-op", "harness", E.op)
            /\ UNCHANGED <<src, pos, posKnown>> /\ KeepDecoder /\ NextLine
 
 Init == /\ l = 1 /\ phase = 0 /\ lastPic = NoPic /\ refPic = NoPic /\ src = <<>> /\ pos = 0 /\ posKnown = TRUE /\ pstart = 0
         /\ sor = TRUE /\ dcoll = FALSE /\ dead = FALSE
         /\ kinds = <<>> /\ quants = <<>> /\ mvs = <<>> /\ coef = <<>> /\ g = <<>> /\ rng = <<>>
-Next == l <= Len(Rec) /\ (New \/ NewReader \/ AppendBytes \/ Cleanup \/ DecodeStart \/ Parse \/ Pass1Stage \/ Pass2Stage \/ Compare \/ SkipDead \/ Unknown)
+Next == l <= Len(Rec) /\ (New \/ NewReader \/ AppendBytes \/ Cleanup \/ DecodeStart \/ Parse \/ Pass1Stage \/ Pass2Stage \/ Compare \/ PostOp \/ Replicas \/ SkipDead \/ Unknown)
 Spec == Init /\ [][Next]_vars
 Done == l = Len(Rec) + 1 => PrintT("CONSUMED " \o ToString(l - 1) \o " OF " \o ToString(Len(Rec)))
 =============================================================================
